@@ -25,7 +25,7 @@ type Profile struct {
 }
 
 func weighted(w map[string]int) []string {
-	order := []string{"resolve", "reserr", "state", "pick", "done", "adv", "failnew", "cancel", "allready", "bindflow", "decall", "readyrepl", "staledown", "emptypool", "saturate", "refreshcycle", "stalede", "affswap", "fbflow", "bindacross", "growmax", "multibind", "fillwm", "affburst", "flaprefresh", "rrempty"}
+	order := []string{"resolve", "reserr", "state", "pick", "done", "adv", "failnew", "cancel", "allready", "bindflow", "decall", "readyrepl", "staledown", "emptypool", "saturate", "refreshcycle", "stalede", "affswap", "fbflow", "bindacross", "growmax", "multibind", "fillwm", "affburst", "flaprefresh", "rrempty", "rrstraddle", "unbindrace"}
 	var out []string
 	for _, k := range order {
 		for i := 0; i < w[k]; i++ {
@@ -141,6 +141,27 @@ func genStep(p *Profile, cfg *Config) *rapid.Generator[[]Op] {
 			}
 			ops = append(ops, Op{K: "done", Idx: -1, Out: rapid.SampledFrom([]int{2, 2, 2, 2, 3, 4}).Draw(t, "dout")})
 			return ops
+		case "rrstraddle":
+			// (ROUND_ROBIN bind) a BIND pick waits for its channel while a response arrives on that channel; the call then
+			// starts AFTER that response and ends with a client-side deadline error: it counts for the detector
+			var ops []Op
+			for i := 0; i < 6; i++ {
+				ops = append(ops, Op{K: "state", Idx: i, St: 2})
+			}
+			for i := 0; i < 3; i++ {
+				ops = append(ops, Op{K: "pick", M: 0}) // with a high watermark these spread over the channels
+			}
+			ops = append(ops, Op{K: "state", Idx: 1, St: rapid.SampledFrom([]int{1, 1, 3, 0}).Draw(t, "sdown")})
+			dl := rapid.SampledFrom([]int{50, 50, 1000}).Draw(t, "sdl")
+			for i := 0; i < 3; i++ { // the cursor visits every channel of a pool of up to three: one of these waits
+				ops = append(ops, Op{K: "pick", M: 1, Key: rapid.IntRange(0, 3).Draw(t, "sk"), DlMs: dl})
+			}
+			ops = append(ops, Op{K: "adv", Ns: rapid.SampledFrom([]int64{1e6, 3e6, 8e6}).Draw(t, "sw1")})
+			for i := 0; i < 6; i++ {
+				ops = append(ops, Op{K: "done", Idx: -1, Out: 0})
+			}
+			ops = append(ops, Op{K: "adv", Ns: rapid.SampledFrom([]int64{1, 1e6, 3e6}).Draw(t, "sw2")}, Op{K: "state", Idx: 1, St: 2})
+			return append(ops, Op{K: "adv", Mode: 1, Idx: -1, Eps: rapid.SampledFrom([]int{0, 1, 1000000}).Draw(t, "seps")}, Op{K: "done", Idx: -1, Out: 2}, Op{K: "done", Idx: -1, Out: 2})
 		case "readyrepl":
 			return []Op{{K: "state", Sel: 1, Idx: rapid.IntRange(0, 3).Draw(t, "ri"), St: 2}}
 		case "staledown":
@@ -196,6 +217,29 @@ func genStep(p *Profile, cfg *Config) *rapid.Generator[[]Op] {
 			}
 			ops = append(ops, Op{K: "state", Sel: 4, Key: key, St: 2}, Op{K: "pick", M: rapid.SampledFrom([]int{2, 2, 3}).Draw(t, "am"), Key: key})
 			return ops
+		case "unbindrace":
+			// UNBIND calls for a key that is not bound yet are in flight (on whatever channels are least loaded) while a
+			// BIND for that key completes; they then complete and unbind it. Another key lives on one of those channels;
+			// its channel is refreshed afterwards and the key is used.
+			k2 := rapid.IntRange(0, 3).Draw(t, "uk2")
+			k1 := (k2 + rapid.IntRange(1, 3).Draw(t, "uk1")) % 4
+			calls := cfg.UdCalls
+			if calls < 1 {
+				calls = 1
+			}
+			ops := []Op{{K: "pick", M: 1, Key: k2}, {K: "done", Idx: -1, Out: 0}}
+			n := rapid.IntRange(1, 4).Draw(t, "un")
+			for i := 0; i < n; i++ {
+				ops = append(ops, Op{K: "pick", M: 3, Key: k1})
+			}
+			ops = append(ops, Op{K: "pick", M: 1, Key: k1}, Op{K: "done", Idx: -1, Out: 0})
+			for i := 0; i < n; i++ {
+				ops = append(ops, Op{K: "done", Idx: -1, Out: 0})
+			}
+			for j := 0; j < calls; j++ {
+				ops = append(ops, Op{K: "pick", M: 2, Key: k2, DlMs: 1}, Op{K: "adv", Mode: 1, Idx: -1, Eps: 1}, Op{K: "done", Idx: -1, Out: 2})
+			}
+			return append(ops, Op{K: "state", Sel: 4, Key: k2, St: 2}, Op{K: "pick", M: 2, Key: k2}, Op{K: "pick", M: 2, Key: k1}, Op{K: "pick", M: 2, Key: k2})
 		case "bindacross":
 			// a BIND stays in flight while its channel is refreshed (through keyed deadline calls that follow it
 			// there), then completes; then the key is used
@@ -379,6 +423,10 @@ func GenCase(t *rapid.T, p *Profile) *Case {
 		cfg.Max = rapid.IntRange(lo, hi).Draw(t, "max")
 		cfg.WM = rapid.SampledFrom(p.WM).Draw(t, "wm")
 	}
+	if (p.Name == "load" || p.Name == "size" || p.Name == "cfg") && rapid.IntRange(0, 11).Draw(t, "hugewm") == 0 {
+		// the watermark is a uint32 field: values around 2^31 and 2^32
+		cfg.WM = rapid.SampledFrom([]int{1<<31 - 1, 1 << 31, 1<<31 + 1, 1<<31 + 3, 1<<32 - 1}).Draw(t, "wmhuge")
+	}
 	pct := func(n int, label string) bool { return n > 0 && rapid.IntRange(1, 100).Draw(t, label) <= n }
 	cfg.Fallback = pct(p.Fallback, "fallback")
 	cfg.UdMs = rapid.SampledFrom(p.UdMs).Draw(t, "udMs")
@@ -394,6 +442,9 @@ func GenCase(t *rapid.T, p *Profile) *Case {
 		if pct(50, "altnomethods") {
 			c.Alt.Methods = "none"
 		}
+	}
+	if cfg.UdMs > 0 && cfg.UdCalls > 0 && rapid.IntRange(0, 5).Draw(t, "rmprobe") == 0 {
+		c.RmProbe = true
 	}
 	var ops []Op
 	if !pct(p.NoFirst, "nofirst") {
@@ -421,7 +472,7 @@ var hostileMethods = []int{0, 1, 2, 3, 4, 5, 6, 7, 8, 9, 14, 15, 16, 17, 18}
 // Profiles by name.
 var Profiles = map[string]*Profile{
 	"affinity": {Name: "affinity", Min: [2]int{1, 4}, Max: [2]int{1, 5}, WM: []int{1, 2, 3, 100}, Fallback: 30, UdMs: []int64{0, 7, 100}, UdCalls: []int{1, 1, 2}, Strict: 50, Shutdown: true,
-		W: map[string]int{"resolve": 1, "state": 8, "pick": 18, "done": 10, "adv": 2, "allready": 2, "bindflow": 10, "decall": 8, "readyrepl": 8, "staledown": 3, "affswap": 8, "fbflow": 2, "stalede": 1, "bindacross": 6, "multibind": 6}, Methods: allMethods},
+		W: map[string]int{"resolve": 1, "state": 8, "pick": 18, "done": 10, "adv": 2, "allready": 2, "bindflow": 10, "decall": 8, "readyrepl": 8, "staledown": 3, "affswap": 8, "fbflow": 2, "stalede": 1, "bindacross": 6, "multibind": 6, "unbindrace": 5}, Methods: allMethods},
 	"load": {Name: "load", Min: [2]int{1, 5}, Max: [2]int{1, 5}, WM: []int{1, 2, 3, 4, 5}, Fallback: 20, UdMs: []int64{0, 7, 100}, UdCalls: []int{1, 2}, RR: 15, Strict: 50,
 		W: map[string]int{"resolve": 1, "state": 8, "pick": 25, "done": 22, "adv": 2, "allready": 3, "bindflow": 3, "decall": 6, "readyrepl": 6, "staledown": 3, "saturate": 3, "refreshcycle": 3, "stalede": 2, "fbflow": 3, "flaprefresh": 3, "affburst": 1}, Methods: []int{0, 0, 0, 0, 2, 2, 9, 1, 3}},
 	"size": {Name: "size", Wild: true, WM: []int{1}, Fallback: 10, UdMs: []int64{0, 7}, UdCalls: []int{1}, Strict: 50, Shutdown: true,
@@ -430,8 +481,8 @@ var Profiles = map[string]*Profile{
 		W: map[string]int{"resolve": 1, "state": 30, "pick": 8, "done": 4, "adv": 1, "allready": 2, "decall": 8, "readyrepl": 8, "staledown": 4, "refreshcycle": 3, "flaprefresh": 4}, Methods: allMethods},
 	"hostile": {Name: "hostile", Wild: true, WM: []int{1}, Fallback: 50, UdMs: []int64{0, 1, 7}, UdCalls: []int{0, 1}, RR: 25, Strict: 50, Shutdown: true, Hostile: true, CfgOps: true, NoFirst: 20,
 		W: map[string]int{"resolve": 4, "reserr": 1, "state": 12, "pick": 20, "done": 10, "adv": 2, "failnew": 3, "cancel": 2, "allready": 3, "bindflow": 4, "decall": 6, "readyrepl": 5, "staledown": 3, "emptypool": 1, "saturate": 2, "affswap": 3, "fbflow": 3, "refreshcycle": 2, "bindacross": 2, "multibind": 2, "rrempty": 3}, Methods: hostileMethods},
-	"detector": {Name: "detector", Min: [2]int{1, 3}, Max: [2]int{1, 3}, WM: []int{100, 100, 2}, UdMs: []int64{0, 1, 7, 100, 60000, 1 << 31, 1<<32 - 1}, UdCalls: []int{0, 1, 2, 3, 4}, Strict: 50, Shutdown: true,
-		W: map[string]int{"resolve": 1, "state": 5, "pick": 8, "done": 8, "adv": 4, "failnew": 3, "allready": 2, "decall": 24, "readyrepl": 10, "refreshcycle": 10, "stalede": 8}, Methods: []int{0, 0, 2, 1}},
+	"detector": {Name: "detector", Min: [2]int{1, 3}, Max: [2]int{1, 3}, WM: []int{100, 100, 2}, UdMs: []int64{0, 1, 7, 100, 60000, 1 << 31, 1<<32 - 1}, UdCalls: []int{0, 1, 2, 3, 4}, Strict: 50, Shutdown: true, RR: 20,
+		W: map[string]int{"resolve": 1, "state": 5, "pick": 8, "done": 8, "adv": 4, "failnew": 3, "allready": 2, "decall": 24, "readyrepl": 10, "refreshcycle": 10, "stalede": 8, "rrstraddle": 4}, Methods: []int{0, 0, 2, 1}},
 	"fallback": {Name: "fallback", Min: [2]int{2, 4}, Max: [2]int{2, 4}, WM: []int{1, 2, 3}, Fallback: 100, UdMs: []int64{0, 7, 100}, UdCalls: []int{1}, Strict: 50,
 		W: map[string]int{"resolve": 1, "state": 8, "pick": 20, "done": 6, "adv": 1, "allready": 3, "bindflow": 10, "decall": 5, "readyrepl": 6, "staledown": 6, "saturate": 2, "fbflow": 16, "affswap": 2, "bindacross": 1}, Methods: []int{0, 2, 2, 2, 2, 5, 3, 1}},
 	"rr": {Name: "rr", Min: [2]int{1, 6}, Max: [2]int{1, 6}, WM: []int{1, 2, 100}, Fallback: 20, UdMs: []int64{0, 7, 100}, UdCalls: []int{1}, RR: 100, Strict: 50,
